@@ -25,6 +25,10 @@ type srvPacket struct {
 	Prof    ref.Profile
 	Chain   []ref.Exception
 	Timeout int // virtual read timeouts before this packet
+	// MidTimeout > 0: the packet arrives in two pieces (split after 1 + (MidTimeout-1) mod (len-1)
+	// bytes) with a pause between them during which an armed read deadline would expire. The
+	// library reads packet bodies without a deadline, so the pause must change nothing.
+	MidTimeout int
 }
 
 // respScript: a generated server response with the client-side configuration.
@@ -56,6 +60,9 @@ func (s *respScript) Kinds() string {
 		}
 		if p.Kind == "exception" {
 			x += fmt.Sprintf("(depth %d)", len(p.Chain))
+		}
+		if p.MidTimeout > 0 {
+			x += fmt.Sprintf("(pause@%d)", p.MidTimeout)
 		}
 		if p.Timeout > 0 {
 			x = fmt.Sprintf("timeout*%d,", p.Timeout) + x
@@ -391,7 +398,13 @@ func runResponse(s *respScript, seg func(avail, want int) int) *execResult {
 			for k := 0; k < p.Timeout; k++ {
 				items = append(items, simnet.Item{Timeout: true})
 			}
-			items = append(items, simnet.Item{Data: s.encode(p, neg), Packet: i})
+			data := s.encode(p, neg)
+			if p.MidTimeout > 0 && len(data) > 1 {
+				off := 1 + (p.MidTimeout-1)%(len(data)-1)
+				items = append(items, simnet.Item{Data: data[:off], Packet: i}, simnet.Item{Timeout: true}, simnet.Item{Data: data[off:], Packet: i})
+				continue
+			}
+			items = append(items, simnet.Item{Data: data, Packet: i})
 		}
 		return items
 	}
